@@ -393,12 +393,19 @@ class EditWorld(object):
                 self.problem(dict(key, aspect="clades"), "%s: canonical forms differ: %s vs %s" % (
                     what, models.canon_str(bridge.canon_tree(a)), models.canon_str(bridge.canon_tree(b))))
                 return
-            if a.labels != b.labels:
-                self.problem(dict(key, aspect="labels"), "%s: labels differ: %r vs %r" % (what, a.labels, b.labels))
-            if sorted(map(str, a.nodes)) != sorted(map(str, b.nodes)):
-                self.problem(dict(key, aspect="nodes"), "%s: node lists differ: %r vs %r" % (what, a.nodes, b.nodes))
-            if a.node_last_added_to != b.node_last_added_to:
-                self.problem(dict(key, aspect="last_added"), "%s: node_last_added_to %r vs %r" % (what, a.node_last_added_to, b.node_last_added_to))
+            # Names must survive the round trip itself.  After LATER edits the twin and the restored tree may name the same
+            # clones differently (relabel_nodes numbers clones in DFS order, which follows edge insertion order, and a restored
+            # graph has its edges re-inserted in list order): names are identifiers, the statement's "edited further exactly
+            # like the original" is judged on clades, outliers, per-clone vectors and densities.
+            if what.startswith("roundtrip"):
+                if a.labels != b.labels:
+                    self.problem(dict(key, aspect="labels"), "%s: labels differ: %r vs %r" % (what, a.labels, b.labels))
+                if sorted(map(str, a.nodes)) != sorted(map(str, b.nodes)):
+                    self.problem(dict(key, aspect="nodes"), "%s: node lists differ: %r vs %r" % (what, a.nodes, b.nodes))
+                if a.node_last_added_to != b.node_last_added_to:
+                    self.problem(dict(key, aspect="last_added"), "%s: node_last_added_to %r vs %r" % (what, a.node_last_added_to, b.node_last_added_to))
+            else:
+                self.probe("twin_names_differ" if a.labels != b.labels else "twin_names_equal")
             na, nb = monitors.node_arrays(a), monitors.node_arrays(b)
             for k in na:
                 if k not in nb:
